@@ -148,6 +148,33 @@ func c11inputs(env sched.Env) *sched.Report {
 			}
 		}
 	}
+	// key shapes: every key over { } x NUL up to length 5 (quick) / 6, as the key of single-key, multi-key and script
+	// commands (routing looks for a hash tag in every key)
+	{
+		kalpha := []byte{'{', '}', 'x', 0}
+		kmax := 5
+		if env.Tier == "thorough" {
+			kmax = 6
+		}
+		var kgen func(k []byte)
+		kgen = func(k []byte) {
+			for _, args := range [][]string{{"get", string(k)}, {"mget", "a", string(k)}, {"eval", "return 1", "1", string(k)}, {"mset", string(k), "v", "{" + string(k), "v"}} {
+				rep.Execs++
+				sched.Progress(nil)
+				in := resp.Encode(resp.Cmd(args...))
+				if s, d := c11downstream(p, in); s != "" {
+					fail(s+" / key made of braces", d, c11case{Kind: "down", In: in})
+				}
+			}
+			if len(k) == kmax {
+				return
+			}
+			for _, c := range kalpha {
+				kgen(append(k, c))
+			}
+		}
+		kgen(make([]byte, 0, 8))
+	}
 	// non-bulk elements, nulls and nesting inside requests
 	for _, raw := range []string{"*1\r\n:1\r\n", "*2\r\n$3\r\nget\r\n$-1\r\n", "*-1\r\n", "*0\r\n", "$-1\r\n", "*1\r\n*1\r\n$3\r\nget\r\n", "*2\r\n$4\r\nscan\r\n:0\r\n", "+OK\r\n", "-ERR x\r\n", ":5\r\n",
 		"*2\r\n$4\r\nmget\r\n*0\r\n", "*3\r\n$4\r\neval\r\n$1\r\ns\r\n$-1\r\n", "*4\r\n$4\r\neval\r\n$1\r\ns\r\n$1\r\n1\r\n$-1\r\n", "*2\r\n$3\r\nGET\r\n$-1\r\n"} {
